@@ -110,12 +110,21 @@ func sameCycle(r orb.Ring, pts []orb.Point) bool {
 // directions, any order: Join gives back the one ring with every vertex once.
 func VerifH_C16_joinRing() {
 	pts := gPentagon(10, 10)
-	pieces := gCut(pts, []int{0, 1, 2, 3, 4})
+	cuts := []int{0, 1, 2, 3, 4}
+	allDirections := true
+	if vParam("octagon", 0) == 1 {
+		// eight single-edge pieces in every order; directions: all forward or alternating
+		pts = []orb.Point{{10, 10}, {14, 10}, {17, 12}, {18, 15}, {16, 18}, {12, 19}, {9, 17}, {8, 13}}
+		cuts = []int{0, 1, 2, 3, 4, 5, 6, 7}
+		allDirections = false
+	}
+	pieces := gCut(pts, cuts)
 	order := gPerm(len(pieces))
+	alternate := !allDirections && vRange("alternateDirections", 0, 1) == 1
 	var segs []mputil.Segment
-	for _, k := range order {
+	for i, k := range order {
 		ls := append(orb.LineString{}, pieces[k]...)
-		if vRange("reverse", 0, 1) == 1 {
+		if allDirections && vRange("reverse", 0, 1) == 1 || alternate && i%2 == 1 {
 			ls.Reverse()
 		}
 		segs = append(segs, mputil.Segment{Index: uint32(k), Line: ls})
